@@ -26,6 +26,12 @@ CLAIMED = {
     "C08": ("solve() of every solver is proved equal to the interpretation of the loop skeleton translated from ITS source on every run; for that loop: at most k further iterations, iteration = number of sweeps, stop at the FIRST passing test, convergence reported iff the last test passed, values = that many reference backups of the start values (VI spelled out), thresholds equal the documented formulas (about the translated formulas), solve(k1);solve(k2) = solve(k1+k2) for all five solvers, initial values = map initial_value. Histories of solve() calls (before and after convergence) are compared bit-exactly with the kernel-evaluated model and with a single solve(sum k).",
             "Coq 8.16.1 kernel; translators gen_loops.py / gen_threshold.py (fail-closed); _iteration_step bodies hand-modelled and tied by correspondence.",
             "Coq proof over source-translated loop skeletons and thresholds + bit-exact history correspondence", "6 C08"),
+    "C04": ("For every well-formed MDP and every solution (g*, h*) of the average-reward optimality equation: gain brackets min(Th-h) <= g* <= max(Th-h) (also per policy, and g_pi <= g*); every RVI run that reports convergence from the fresh solver or any later state reports a gain within epsilon of g*, returns a policy whose gain is within epsilon of g*, and satisfies the optimality equation within epsilon at every state; the reference component equals the gain after every iteration (no drift; partial: no uniform span bound). Runs are compared bit-exactly with the kernel-evaluated model; gains are checked against exact rational policy iteration.",
+            "Coq 8.16.1 kernel; RVI step hand-modelled (Model/Solvers.v) tied by correspondence; threshold/test translated from source; existence of (g*, h*) (unichain) not proved - theorems quantify over solutions; aperiodicity only matters for convergence being reached.",
+            "Coq proof of gain brackets lifted to RVI runs + bit-exact run correspondence + exact gain oracle", "6 C04"),
+    "C05": ("Policy-evaluation step = expected one-step value under the state's own action for EVERY layout; the evaluation loop returns the pre-update iterate on a passed test and the last iterate on an exhausted budget; converged max_diff evaluation is within epsilon/gamma of the exact policy value; PI stops before its limit iff the improvement step changed no action; the stored policy is greedy for the stored values after every step; first policy = problem's initial policy or argmax of expected immediate reward; reset option. Tied by evaluating injected policies (public route) and whole runs bit-exactly.",
+            "Coq 8.16.1 kernel; PI step/evaluation hand-modelled tied by correspondence; loop skeleton and thresholds translated from source.",
+            "Coq proof + bit-exact correspondence on injected policies and whole PI runs", "6 C05"),
 }
 
 man = {
